@@ -116,8 +116,11 @@ def main():
     ap.add_argument("--replay")
     ap.add_argument("--seed", type=int, default=int(os.environ.get("VERIF_SEED", "0") or 0))
     ap.add_argument("--budget", type=float, default=None, help="wall-clock seconds for generated cases")
+    ap.add_argument("--aux-of", default=None,
+                    help="run as an auxiliary check of that property: report under its id, summary to replays/")
     args = ap.parse_args()
     pid, tier = args.pid, args.tier
+    rid = args.aux_of or pid          # the property id violations are reported under
     t_start = _MONO()
 
     # 1. parameters
@@ -133,6 +136,22 @@ def main():
             print(f"[{pid}] parameter extractors failed (cached values used): {failed_extractors}")
 
     mod = importlib.import_module(pid.lower())
+    # auxiliary checks (helper theorems + their own correspondence, e.g. the quoting layer): run first,
+    # reported under this property's id, summarised in this property's evidence
+    aux_results, aux_exit = {}, 0
+    if not args.replay and not args.aux_of:
+        for aux in getattr(mod, "AUX", []):
+            cmd = ["/venv/bin/python", os.path.abspath(__file__), aux, "--tier", tier, "--seed", str(args.seed),
+                   "--aux-of", pid]
+            rc, out = sh(cmd, cwd=VERIF, timeout=7200)
+            print(out.rstrip())
+            aux_exit = max(aux_exit, 1 if rc else 0)
+            try:
+                aux_results[aux] = json.load(open(os.path.join(VERIF, "replays", f"aux-{aux}.json")))
+            except Exception:
+                aux_results[aux] = {"error": "no summary written", "exit": rc}
+                aux_exit = 1
+                print(f"VIOLATION property={pid} replay=replays/aux-{aux}.json no-failing-input-found")
     if not args.replay:
         for old in glob.glob(os.path.join(VERIF, "replays", f"{pid}-{args.seed}-*.json")):
             os.remove(old)
@@ -295,7 +314,7 @@ def main():
     out_lines = []
     exit_code = 0
     for kid, (kf, line) in known_hits.items():
-        out_lines.append(f"KNOWN-FINDING: property={pid} {kf['id']}: {kf['what']}")
+        out_lines.append(f"KNOWN-FINDING: property={rid} {kf['id']}: {kf['what']}")
 
     def shrink(line):
         if not hasattr(mod, "shrink_candidates"):
@@ -320,16 +339,16 @@ def main():
         impl_s = guarded_impl(small) if small != line else impl
         model_s = lean.ask(model_request(small, impl_s)) if small != line else model
         rp = os.path.join("replays", f"{pid}-{args.seed}-spec.json")
-        json.dump({"property": pid, "kind": "spec-violated-on-implementation", "case": small, "original_case": line,
+        json.dump({"property": rid, "check": pid, "kind": "spec-violated-on-implementation", "case": small, "original_case": line,
                    "origin": origin, "impl_obs": impl_s, "model_obs": model_s,
                    "explain": getattr(mod, "explain", lambda *_: "")(small, impl_s, model_s),
                    "proof_state": proof["broken"], "replay_cmd": f"./check {pid} --replay {rp}"},
                   open(os.path.join(VERIF, rp), "w"), indent=1)
-        out_lines.append(f"VIOLATION property={pid} replay={rp}")
+        out_lines.append(f"VIOLATION property={rid} replay={rp}")
         exit_code = 1
     elif disagreements or not proof["proof_ok"] or lean is None or params is None:
         rp = os.path.join("replays", f"{pid}-{args.seed}-unproved.json")
-        rec = {"property": pid, "kind": "no-failing-input-found",
+        rec = {"property": rid, "check": pid, "kind": "no-failing-input-found",
                "broken_theorems": proof["broken"], "proof_log_tail": proof["log"][-1500:] if not proof["proof_ok"] else ""}
         if disagreements:
             line, impl, model, origin = disagreements[0]
@@ -341,7 +360,7 @@ def main():
         if lean is None or params is None:
             rec["broken_correspondence"] = "harness could not start (driver or parameter extraction failed)"
         json.dump(rec, open(os.path.join(VERIF, rp), "w"), indent=1)
-        out_lines.append(f"VIOLATION property={pid} replay={rp} no-failing-input-found")
+        out_lines.append(f"VIOLATION property={rid} replay={rp} no-failing-input-found")
         exit_code = 1
 
     # 7. evidence (not in replay mode)
@@ -364,14 +383,28 @@ def main():
             "assumptions": list(getattr(mod, "ASSUMPTIONS", [])),
             "wall_s": round(wall, 2), "violations": len(violations) + (1 if exit_code and not violations else 0),
         }
-        json.dump(ev, open(os.path.join(VERIF, "evidence", f"{pid}.json"), "w"), indent=1)
+        if os.environ.get("TBOT_VERIF_NOEVIDENCE") == "1" and not args.aux_of:
+            pass        # a run against a scratch tree (seeded-change evaluation): evidence/ is for /repo only
+        elif args.aux_of:
+            cov = ev["coverage"]
+            json.dump({"check": pid, "tier": tier, "seed": args.seed, "obligations": cov["obligations"],
+                       "discharged": cov["discharged"], "theorems": cov["theorems"], "axioms_used": cov["axioms_used"],
+                       "evaluations": cov["evaluations"], "distinct_nontrivial": cov["distinct_nontrivial"],
+                       "rule": cov["rule"], "distribution": cov["distribution"], "trusted_base": list(getattr(mod, "TRUSTED", [])),
+                       "assumptions": ev["assumptions"], "violations": ev["violations"], "wall_s": ev["wall_s"]},
+                      open(os.path.join(VERIF, "replays", f"aux-{pid}.json"), "w"), indent=1)
+        else:
+            if aux_results:
+                ev["coverage"]["aux_checks"] = aux_results
+                ev["violations"] += sum(int(a.get("violations", 1)) for a in aux_results.values())
+            json.dump(ev, open(os.path.join(VERIF, "evidence", f"{pid}.json"), "w"), indent=1)
     print(f"[{pid}] tier={tier} seed={args.seed} cases={stats['evaluations']} agree={stats['agree']} "
           f"nontrivial={len(stats['nontrivial'])} spec_evals={stats['spec_on_impl']} wall={wall:.1f}s")
     for l in out_lines:
         print(l)
     if lean is not None:
         lean.close()
-    sys.exit(exit_code)
+    sys.exit(max(exit_code, aux_exit))
 
 
 if __name__ == "__main__":
